@@ -230,7 +230,7 @@ def minor_keep_rule(gene, mutations):
     return keep
 
 
-def rmin(gene, prof, raw, major_counts, cnsol, extra_mutations=(), phases=None, limit=400000):
+def rmin(gene, prof, raw, major_counts, cnsol, extra_mutations=(), phases=None, limit=400000, filter_cn=None):
     """Exhaustive evaluation of the minor-stage objective for ONE major solution.
 
     major_counts: {major name: copies}; extra_mutations: novel core variants of the major solution (its `added`).
@@ -246,7 +246,13 @@ def rmin(gene, prof, raw, major_counts, cnsol, extra_mutations=(), phases=None, 
         for mi in gene.alleles[A].minors.values():
             mutations |= set(mi.neutral_muts)
     mutations |= set(gene.random_mutations)
-    t2, pcn = filtered_table(gene, prof, raw, cnsol, keep=minor_keep_rule(gene, mutations))
+    # filter_cn: the structure whose copy numbers the evidence filter uses when it is not the refined candidate's own (estimate_minor
+    # filters once, with the LAST candidate's structure, for all candidates: recorded finding D9)
+    t2, pcn = filtered_table(gene, prof, raw, filter_cn or cnsol, keep=minor_keep_rule(gene, mutations))
+    if filter_cn is not None:
+        def pcn(p):  # noqa  (the model itself uses the candidate's own copy numbers)
+            r = gene.region_at(p)
+            return cnsol.region_cn[r[0]][r[1]] if r else 0
 
     def cnt(p, o):
         return len(t2.get(p, {}).get(o, []))
